@@ -1455,6 +1455,40 @@ ctl('g3b-column-index-bounded-by-row-count', 'C20', 'G3b', 'modules/dagaz/grid_s
 		if cellY < 0 || cellY >= len(grid.Grid[0]) {""",
     'IntersectQuad:bound[cellX]')
 
+# ---- the same breakages registered for C20 (grid sharing / retention clause)
+ctl('f1-grid-lock-dropped-c20', 'C20', 'F1', 'modules/dagaz/state.go',
+    """func (s *State) debugInfo() SpatialDebugInfo {
+	s.mutex.Lock()
+	defer s.mutex.Unlock()
+
+""",
+    """func (s *State) debugInfo() SpatialDebugInfo {
+""", 'RegularGrid')
+ctl('f6b-lock-held-after-panic-c20', 'C20', 'F6b', 'modules/dagaz/state.go',
+    """func (s *State) insertQuads(quads []Quad) {
+	s.mutex.Lock()
+	defer s.mutex.Unlock()
+
+	for _, quad := range quads {
+		s.SpatialPartition.InsertQuad(quad)
+	}
+}""",
+    """func (s *State) insertQuads(quads []Quad) {
+	s.mutex.Lock()
+	for _, quad := range quads {
+		s.SpatialPartition.InsertQuad(quad)
+	}
+	s.mutex.Unlock()
+}""", 'insertQuads')
+ctl('f6c-value-receiver-copies-mutex-c20', 'C20', 'F6c', 'modules/dagaz/state.go',
+    """func (s *State) debugInfo() SpatialDebugInfo {""",
+    """func (s State) debugInfo() SpatialDebugInfo {""",
+    'debugInfo:receiver')
+ctl('g3-row-clamp-into-column-c20', 'C20', 'G3', 'modules/dagaz/grid_spatial_partition.go',
+    """		cellY = (uint)(math.Min((float64)(cellY), (float64)(len(grid.Grid)-1)))""",
+    """		cellX = (uint)(math.Min((float64)(cellY), (float64)(len(grid.Grid)-1)))""", 'IntersectQuad', 'the defect fixed in IntersectQuad, re-introduced')
+# ---- ids / registry / silent drops / flag set
+
 os.makedirs(OUT, exist_ok=True)
 bad = 0
 names = set()
